@@ -46,3 +46,14 @@ Example C01_nonvacuous :
   option_map a_ips (get_alloc a 1%N) = Some [x] /\ option_map a_ips (get_alloc a 2%N) = Some [x] /\
   snd (step a (OAssign 3%N (ex_req 80) [x])) = RErr ESharing.
 Proof. vm_compute. repeat split. Qed.
+
+(* ---- status level: whenever the controller has no pending work ---- *)
+From Verif Require Import Model.Ctrl Proofs.CtrlP Proofs.CtrlWorldP Proofs.CtrlThmP.
+
+Theorem C01_statuses_exclusive : forall rank evs w s1 s2 o1 o2 x,
+  wrun rank evs world0 = Some w -> quiescent w -> s1 <> s2 ->
+  aget (w_api w) s1 = Some o1 -> aget (w_api w) s2 = Some o2 ->
+  In x (o_status o1) -> In x (o_status o2) ->
+  exists al1 al2, get_alloc (c_mem (w_ctl w)) s1 = Some al1 /\ get_alloc (c_mem (w_ctl w)) s2 = Some al2 /\
+                  shareable al1 al2.
+Proof. exact quiescent_status_exclusive. Qed.
